@@ -378,6 +378,15 @@ func typeFacts(t types.Type, v Value, heaptop0 *Term) []*Term {
 		out = append(out, Implies(Eq(x.Ref, IntLit(0)), And(Eq(x.Cap, IntLit(0)), Eq(x.Off, IntLit(0)))))
 	case IfaceV:
 		out = append(out, Le(IntLit(0), x.Tag), Implies(Eq(x.Tag, IntLit(0)), Eq(x.Val, IntLit(0))))
+		if it, ok := t.Underlying().(*types.Interface); ok && it.NumMethods() > 0 {
+			// a value of interface type I is nil or its dynamic type implements I
+			ifaceReg[typeStr(t)] = t
+			if x.Tag.IsInt() {
+				// literal tags are decided by go/types where they are produced
+			} else {
+				out = append(out, Or(Eq(x.Tag, IntLit(0)), App("impl|"+typeStr(t), BoolS, x.Tag)))
+			}
+		}
 		if isErrorType(t) {
 			// error values holding a *PathError / *LinkError hold a non-nil pointer (typed-nil errors are excluded)
 			for _, pt := range errPtrTags {
